@@ -62,6 +62,7 @@ class Context:
         self.pc: List[z3.BoolRef] = []
         self.solver = z3.Solver()
         self.solver.set("timeout", timeout_ms)
+        self.solver._verif_timeout = timeout_ms
         self.events: List[tuple] = []  # (kind, payload) — warnings, frame writes, ...
         self.obligations: List[dict] = []
         self.fresh = itertools.count()
